@@ -773,7 +773,11 @@ class Interp:
             hi = self.eval(n.slice.upper, env, m) if n.slice.upper else None
             st = self.eval(n.slice.step, env, m) if n.slice.step else None
             if isinstance(base, Sym | SymStr):
-                self.unsupported(n, "slice of abstract value")
+                d = Sym(f"{getattr(base, 'name', 'symstr')}[slice]", truthy=None, pytype=str, tags=tuple(getattr(base, "tags", ())) + ("derived",))
+                d.attrs["derived_from"] = base
+                return d
+            if any(isinstance(x, Sym | SymStr) for x in (lo, hi, st)):
+                self.unsupported(n, "slice with abstract bounds")
             return base[lo:hi:st]
         idx = self.eval(n.slice, env, m)
         return self.getitem(base, idx, n)
@@ -1042,6 +1046,17 @@ class Interp:
             for a in args:
                 out.extend(self.iterate(a, node))
             return out
+        if dotted == "itertools.chain.from_iterable":
+            out = []
+            for a in self.iterate(args[0], node):
+                out.extend(self.iterate(a, node))
+            return out
+        if dotted == "functools.partial":
+            f0, pa, pk = args[0], list(args[1:]), dict(kwargs)
+            return lambda interp, a, k, n, f0=f0, pa=pa, pk=pk: interp.call(f0, [*pa, *a], {**pk, **k}, n)
+        nat = self._native(dotted)
+        if nat is not None:
+            return self._call_native(nat, dotted, args, kwargs, node)
         if dotted in ("copy.copy", "copy.deepcopy"):
             import copy as _c
             return _c.copy(args[0]) if not isinstance(args[0], Sym | SymStr | Obj) else args[0]
@@ -1061,6 +1076,60 @@ class Interp:
         if hook is not None:
             return hook(self, dotted, args, kwargs, node)
         raise AnalysisError(self.rule, f"no model for external call {dotted} at line {getattr(node, 'lineno', '?')}")
+
+    def _native(self, dotted):
+        modname, _, attr = dotted.rpartition(".")
+        allowed = _NATIVE_PURE.get(modname)
+        if allowed is None or attr not in allowed:
+            return None
+        import importlib
+        try:
+            return getattr(importlib.import_module(modname), attr)
+        except (ImportError, AttributeError):
+            return None
+
+    def _wrap_callable(self, v, node):
+        if isinstance(v, FuncVal | LambdaVal | BoundMethod | ClassVal) or (callable(v) and not isinstance(v, type) and getattr(v, "__module__", "") in (None, "sa.interp", __name__)):
+            return lambda *a, **k: self.call(v, list(a), k, node)
+        return v
+
+    def _call_native(self, fn, dotted, args, kwargs, node):
+        def concrete(x, depth=0):
+            if isinstance(x, Sym | SymStr | Obj | NodeVal):
+                return depth > 0  # abstract values may be *elements* that are only moved around, never inspected
+            if isinstance(x, list | tuple | set | frozenset) and depth < 3:
+                return all(concrete(i, depth + 1) for i in x)
+            if isinstance(x, dict) and depth < 3:
+                return all(concrete(i, depth + 1) for i in x.values())
+            return True
+        if not all(concrete(a) for a in [*args, *kwargs.values()]):
+            self.unsupported(node, f"native model of {dotted} applied to an abstract value")
+        a = [self._wrap_callable(x, node) for x in args]
+        k = {kk: self._wrap_callable(v, node) for kk, v in kwargs.items()}
+        try:
+            r = fn(*a, **k)
+            if dotted == "itertools.groupby":
+                return [(kk, list(g)) for kk, g in r]
+            if dotted.startswith("itertools."):
+                if dotted in ("itertools.count", "itertools.repeat") and len(a) < 2:
+                    self.unsupported(node, f"unbounded iterator {dotted}")
+                if dotted == "itertools.tee":
+                    return tuple(list(x) for x in r)
+                return list(r)
+            if dotted.startswith("operator.") and callable(r) and dotted.rsplit(".", 1)[1] in ("itemgetter", "attrgetter"):
+                if dotted.endswith("itemgetter"):
+                    keys = list(a)
+                    return lambda interp, aa, kk, n, keys=keys: (interp.getitem(aa[0], keys[0], n) if len(keys) == 1
+                                                                   else tuple(interp.getitem(aa[0], q, n) for q in keys))
+                names = list(a)
+                return lambda interp, aa, kk, n, names=names: (interp.getattr(aa[0], names[0], n) if len(names) == 1
+                                                                else tuple(interp.getattr(aa[0], q, n) for q in names))
+            return r
+        except Raised:
+            raise
+        except (KeyError, TypeError, ValueError, IndexError, AttributeError) as e:
+            en = type(e).__name__
+            raise Raised(en, e.args if en == "KeyError" else (str(e),), node, BUILTIN_EXC[en]) from None
 
     def builtin(self, name, args, kwargs, node):
         a0 = args[0] if args else None
@@ -1141,7 +1210,10 @@ class Interp:
             return d
         if name == "sorted":
             items = self.iterate(a0, node)
+            key = kwargs.get("key")
             try:
+                if key is not None:
+                    return sorted(items, key=lambda x: self.call(key, [x], {}, node), reverse=bool(kwargs.get("reverse", False)))
                 return sorted(items, reverse=bool(kwargs.get("reverse", False)))
             except TypeError:
                 self.unsupported(node, "sorted of abstract values")
@@ -1156,7 +1228,18 @@ class Interp:
             return list(range(*args))
         if name in ("min", "max", "sum"):
             its = self.iterate(a0, node) if len(args) == 1 else list(args)
-            return {"min": min, "max": max, "sum": sum}[name](its)
+            if name == "sum":
+                return sum(its, *args[1:2]) if len(args) > 1 and not isinstance(args[1], Sym) else sum(its)
+            kw2 = {}
+            if kwargs.get("key") is not None:
+                key = kwargs["key"]
+                kw2["key"] = lambda x: self.call(key, [x], {}, node)
+            if "default" in kwargs:
+                kw2["default"] = kwargs["default"]
+            try:
+                return {"min": min, "max": max}[name](its, **kw2)
+            except ValueError as e:
+                raise Raised("ValueError", (str(e),), node, BUILTIN_EXC["ValueError"]) from None
         if name == "next":
             items = self.iterate(a0, node)
             if items:
@@ -1186,6 +1269,24 @@ class Interp:
             return Obj(None, {}, name="object()")
         if name == "super":
             self.unsupported(node, "super() outside supported pattern")
+        if name == "filter":
+            fn, items = a0, self.iterate(args[1], node)
+            if fn is None:
+                return [i for i in items if self.truth(i)]
+            return [i for i in items if self.truth(self.call(fn, [i], {}, node))]
+        if name == "map":
+            cols = [self.iterate(a, node) for a in args[1:]]
+            return [self.call(a0, list(t), {}, node) for t in zip(*cols)]
+        if name in ("abs", "round", "divmod"):
+            if any(isinstance(a, Sym | SymStr | Obj) for a in args):
+                return Sym(f"{name}(...)", pytype=float)
+            return {"abs": abs, "round": round, "divmod": divmod}[name](*args)
+        if name == "print":
+            return None
+        if name == "issubclass":
+            if isinstance(a0, ClassVal) and isinstance(args[1], ClassVal):
+                return args[1].ci in self.mro(a0.ci)
+            self.unsupported(node, "issubclass on non-class values")
         if name in BUILTIN_EXC:
             return ExcVal(name, tuple(args), BUILTIN_EXC[name])
         self.unsupported(node, f"builtin {name}")
@@ -1384,8 +1485,21 @@ class Interp:
         if attr == "replace":
             s = Sym(f"{base!r}.replace", truthy=None, pytype=str)
             return s
-        if attr == "split":
-            self.unsupported(node, "split of abstract value")
+        def derived(kind):
+            d = Sym(f"{getattr(base, 'name', 'symstr')}.{attr}()", truthy=None, pytype=str, tags=tuple(getattr(base, "tags", ())) + ("derived", kind))
+            d.attrs["derived_from"] = base
+            return d
+        if attr in ("title", "casefold", "swapcase", "removeprefix", "removesuffix", "expandtabs", "zfill", "ljust", "rjust", "center",
+                    "translate", "format", "format_map", "encode", "decode", "join"):
+            return derived("str-transform")
+        if attr in ("split", "rsplit", "splitlines", "partition", "rpartition"):
+            # an abstract text split into an unknown number of abstract pieces: one representative piece, marked as such
+            return [derived("split-part")]
+        if attr in ("isdigit", "isalpha", "isalnum", "isspace", "isnumeric", "isdecimal", "isidentifier", "islower", "isupper", "istitle", "isascii"):
+            k = base.uid if isinstance(base, Sym) else base.text()
+            return self.decide((attr, k))
+        if attr in ("find", "index", "rfind", "rindex", "count"):
+            return Sym(f"{getattr(base, 'name', 'symstr')}.{attr}()", pytype=int)
         self.unsupported(node, f"method {attr} on abstract value {base!r}")
 
     # ---------------------------------------------------------- statements
@@ -1472,6 +1586,14 @@ class Interp:
                 base.attrs[t.attr] = v
             else:
                 self.unsupported(t, "attribute store")
+        elif isinstance(t, ast.Subscript) and isinstance(t.slice, ast.Slice):
+            base = self.eval(t.value, env, m)
+            lo = self.eval(t.slice.lower, env, m) if t.slice.lower else None
+            hi = self.eval(t.slice.upper, env, m) if t.slice.upper else None
+            st = self.eval(t.slice.step, env, m) if t.slice.step else None
+            if not isinstance(base, list) or any(isinstance(x, Sym | SymStr) for x in (lo, hi, st)):
+                self.unsupported(t, "slice store")
+            base[lo:hi:st] = self.iterate(v, t)
         elif isinstance(t, ast.Subscript):
             base = self.eval(t.value, env, m)
             idx = self.eval(t.slice, env, m)
@@ -1723,6 +1845,24 @@ _BUILTIN_FUNCS = {
     "len", "isinstance", "hasattr", "getattr", "callable", "any", "all", "str", "bool", "int", "float",
     "set", "frozenset", "tuple", "list", "dict", "sorted", "reversed", "enumerate", "zip", "range", "min",
     "max", "sum", "next", "iter", "repr", "hash", "format", "chr", "ord", "type", "id", "super", "print",
+    "filter", "map", "abs", "round", "divmod", "issubclass", "object",
+}
+
+# pure standard-library callables that may be applied natively when every argument is a concrete Python value
+# (callables of the analysed program passed as arguments are wrapped so that they run in this evaluator)
+_NATIVE_PURE = {
+    "itertools": ("chain", "groupby", "product", "permutations", "combinations", "islice", "zip_longest", "repeat",
+                  "accumulate", "takewhile", "dropwhile", "starmap", "tee", "count", "compress", "filterfalse", "pairwise"),
+    "operator": ("itemgetter", "attrgetter", "add", "sub", "mul", "eq", "ne", "lt", "le", "gt", "ge", "not_", "and_", "or_",
+                 "contains", "getitem", "truth", "is_", "is_not", "neg"),
+    "functools": ("reduce",),
+    "collections": ("Counter", "OrderedDict", "deque", "ChainMap"),
+    "os.path": ("splitext", "basename", "dirname", "join", "split", "normpath"),
+    "posixpath": ("splitext", "basename", "dirname", "join", "split", "normpath"),
+    "math": ("floor", "ceil", "isnan", "isinf", "sqrt", "trunc", "isclose", "fabs"),
+    "string": (),
+    "textwrap": ("dedent", "indent", "shorten"),
+    "unicodedata": ("normalize", "category"),
 }
 
 
